@@ -518,6 +518,33 @@ def gen_history(rng, stream, n, bad_rate=0.0, nonaffine_steps=0):
             steps.append(gen_bad_step(rng))
         else:
             steps.append(gen_step(rng, stream, budget))
+    if stream != "lattice" and not bad_rate and n > 0:
+        r = rng.random()
+        if r < 0.10:
+            # a step that is almost, but not, the identity (an `allclose` to the identity must not skip it): a scale factor
+            # 1 +- 1e-7..1e-5, a translation of 1e-12..1e-8.5, a rotation by 1e-10..1e-8.5 rad
+            c = rng.random()
+            if c < 0.4:
+                st = ["uniform_scale", 1.0 + rng.choice([-1, 1]) * 10.0 ** rng.uniform(-7, -5), False]
+            elif c < 0.7:
+                st = ["translate", [rng.uniform(-1, 1) * 10.0 ** rng.uniform(-12, -8.5) for _ in range(3)]]
+            else:
+                ax = rand_rotation(rng)[0]
+                th = 10.0 ** rng.uniform(-10, -8.5)
+                st = ["rodrigues", [x * th for x in ax]]
+            if rng.random() < 0.5:
+                steps = [st]                    # on its own: the whole composite is almost the identity
+            else:
+                steps[rng.randrange(len(steps))] = st
+        elif r < 0.15:
+            # a very small (or, reversed, very large) scale factor on its own: nanometres to metres
+            f = 10.0 ** -rng.uniform(8.2, 10)
+            if rng.random() < 0.5:
+                steps = [["uniform_scale", f, False]]
+            else:
+                steps = [["non_uniform_scale", [f, f * rng.uniform(1, 3), f * rng.uniform(1, 3)], False]]
+            if rng.random() < 0.5:
+                steps.append(["flip", rng.randint(0, 2)])
     for _ in range(nonaffine_steps):
         steps.insert(rng.randint(0, len(steps)), gen_nonaffine_step(rng))
     # a caller that keeps its vectors: later reorient steps look along the same vector as an earlier one (other `up`), later
